@@ -693,7 +693,7 @@ pub fn make(prop: &str) -> Option<SCheck> {
         "C04" => SCheck {
             prop: "C04",
             profile: Profile {
-                restores: false,
+                restores: true,
                 priority_mix: true,
                 corner: false,
                 zero: true,
@@ -708,7 +708,7 @@ pub fn make(prop: &str) -> Option<SCheck> {
             twin: false,
             quick: 1_500_000,
             thorough: 30_000_000,
-            rule: "engine S histories rich in partial fills, cancel-then-re-add of the same id, same-price amends and replenishment, each ending in a draining match; priority-stamp monitor over every transaction; non-trivial = a partial fill with other orders resting, a re-add of a cancelled id, or an amend followed by a multi-maker match",
+            rule: "engine S histories rich in partial fills, cancel-then-re-add of the same id, same-price amends and replenishment, with occasional rebuilds of the level from its own snapshot (arrival order restarts from the listed order when that is unambiguous), each ending in a draining match; priority-stamp monitor over every transaction; non-trivial = a partial fill with other orders resting, a re-add of a cancelled id, or an amend followed by a multi-maker match",
         },
         "C05" => SCheck {
             prop: "C05",
